@@ -12,15 +12,21 @@ package main
 import (
 	"flag"
 	"fmt"
+	"net/http/httptest"
 	"sort"
 	"strconv"
+	"strings"
 	"sync"
+	"sync/atomic"
+	"time"
 
 	mapset "github.com/deckarep/golang-set/v2"
 	"github.com/karagenc/socket.io-go/adapter"
 	"github.com/karagenc/socket.io-go/parser"
 	jsonparser "github.com/karagenc/socket.io-go/parser/json"
 	"github.com/karagenc/socket.io-go/parser/json/serializer/stdjson"
+
+	sio "github.com/karagenc/socket.io-go"
 
 	"verifharness/vk"
 )
@@ -542,6 +548,7 @@ func roomsMain(args []string) error {
 	maxLen := fs.Int("maxlen", 40, "max history length")
 	kbAll := fs.Bool("kball", false, "table: every store rmSubset (else: full store, plus a few)")
 	outp := fs.String("out", "-", "")
+	cases := fs.String("cases", "", "live: replay list m,te,from,own;...")
 	fs.Parse(args)
 	out, err := vk.NewOut(*outp)
 	if err != nil {
@@ -572,7 +579,7 @@ func roomsMain(args []string) error {
 			out.Put(rmOpsRun(r.Fork()))
 		}
 	case "live":
-		return roomsLive(out, r, *n)
+		return roomsLive(out, r, *n, *cases)
 	case "conc":
 		return roomsConc(out, r, *n)
 	default:
@@ -581,5 +588,426 @@ func roomsMain(args []string) error {
 	return nil
 }
 
-func roomsLive(out *vk.Out, r *vk.Rand, n int) error { return fmt.Errorf("not built yet") }
-func roomsConc(out *vk.Out, r *vk.Rand, n int) error { return fmt.Errorf("not built yet") }
+// ---------------------------------------------------------------- mode live
+// A real server, namespace "/", three real clients (one Manager each).  Rooms "x4".."x6" are
+// set per case from a membership matrix through ServerSocket.Join/Leave; the broadcast goes through
+// Namespace.To(..).Except(..) or through a socket (ServerSocket.To/Except/Broadcast); clients count
+// the "b" events carrying the case id.  own[i]: socket i is in the room named by its own id.
+type rmLiveRow struct {
+	M      int   `json:"m"`
+	TE     int   `json:"te"`
+	From   int   `json:"from"`
+	Own    []int `json:"own"`
+	Counts []int `json:"counts"`
+}
+
+type rmLiveRig struct {
+	srv     *sio.Server
+	ts      *httptest.Server
+	mgrs    []*sio.Manager
+	ss      []sio.ServerSocket
+	mu      sync.Mutex
+	recv    [3]map[int]int
+	done    [3]chan int
+	nextID  int
+	timeout time.Duration
+}
+
+func rmNewLiveRig() (*rmLiveRig, error) {
+	g := &rmLiveRig{timeout: 10 * time.Second}
+	g.srv = sio.NewServer(&sio.ServerConfig{})
+	if err := g.srv.Run(); err != nil {
+		return nil, err
+	}
+	g.ts = httptest.NewServer(g.srv)
+	connCh := make(chan sio.ServerSocket, 8)
+	g.srv.Of("/").OnConnection(func(s sio.ServerSocket) { connCh <- s })
+	byID := map[string]sio.ServerSocket{}
+	var clients []sio.ClientSocket
+	for i := 0; i < 3; i++ {
+		i := i
+		g.recv[i] = map[int]int{}
+		g.done[i] = make(chan int, 64)
+		m := sio.NewManager(g.ts.URL, &sio.ManagerConfig{})
+		g.mgrs = append(g.mgrs, m)
+		c := m.Socket("/", nil)
+		c.OnEvent("b", func(id int) {
+			g.mu.Lock()
+			g.recv[i][id]++
+			g.mu.Unlock()
+		})
+		c.OnEvent("done", func(id int) { g.done[i] <- id })
+		ok := make(chan struct{}, 4)
+		c.OnConnect(func() { ok <- struct{}{} })
+		c.Connect()
+		select {
+		case <-ok:
+		case <-time.After(g.timeout):
+			return nil, fmt.Errorf("environment: client %d did not connect", i)
+		}
+		select {
+		case s := <-connCh:
+			byID[string(s.ID())] = s
+		case <-time.After(g.timeout):
+			return nil, fmt.Errorf("environment: no connection event for client %d", i)
+		}
+		clients = append(clients, c)
+	}
+	for i, c := range clients {
+		s, ok := byID[string(c.ID())]
+		if !ok {
+			return nil, fmt.Errorf("environment: no server socket with the id of client %d", i)
+		}
+		g.ss = append(g.ss, s)
+	}
+	return g, nil
+}
+
+func (g *rmLiveRig) close() {
+	for _, m := range g.mgrs {
+		m.Close()
+	}
+	g.srv.Close()
+	g.ts.Close()
+}
+
+// barrier: a direct emit to every client, twice, then wait until the counters have been quiet.
+func (g *rmLiveRig) barrier() error {
+	for round := 0; round < 2; round++ {
+		g.nextID++
+		id := g.nextID
+		for _, s := range g.ss {
+			s.Emit("done", id)
+		}
+		for i := range g.ss {
+			for {
+				select {
+				case got := <-g.done[i]:
+					if got != id {
+						continue
+					}
+				case <-time.After(g.timeout):
+					return fmt.Errorf("environment: barrier timeout on client %d", i)
+				}
+				break
+			}
+		}
+	}
+	snap := func() int {
+		g.mu.Lock()
+		defer g.mu.Unlock()
+		n := 0
+		for i := range g.recv {
+			for _, c := range g.recv[i] {
+				n += c
+			}
+		}
+		return n
+	}
+	last, quiet := snap(), 0
+	for quiet < 4 {
+		time.Sleep(15 * time.Millisecond)
+		if now := snap(); now == last {
+			quiet++
+		} else {
+			last, quiet = now, 0
+		}
+	}
+	return nil
+}
+
+func (g *rmLiveRig) run(m, te, from int, own [3]bool) (rmLiveRow, error) {
+	row := rmLiveRow{M: m, TE: te, From: from}
+	for i, s := range g.ss {
+		for j := 0; j < 3; j++ {
+			if m>>(3*i+j)&1 == 1 {
+				s.Join(sio.Room(rmXs(4 + j)))
+			} else {
+				s.Leave(sio.Room(rmXs(4 + j)))
+			}
+		}
+		if own[i] {
+			s.Join(sio.Room(s.ID()))
+			row.Own = append(row.Own, 1)
+		} else {
+			s.Leave(sio.Room(s.ID()))
+			row.Own = append(row.Own, 0)
+		}
+	}
+	T, E := []sio.Room{}, []sio.Room{}
+	for _, k := range rmBitsOf(te&7, 4, 3) {
+		T = append(T, sio.Room(rmXs(k)))
+	}
+	for _, k := range rmBitsOf(te>>3, 4, 3) {
+		E = append(E, sio.Room(rmXs(k)))
+	}
+	g.nextID++
+	id := g.nextID
+	if from == 0 {
+		g.srv.Of("/").To(T...).Except(E...).Emit("b", id)
+	} else if len(T) == 0 && len(E) == 0 {
+		g.ss[from-1].Broadcast().Emit("b", id)
+	} else if len(T) == 0 {
+		g.ss[from-1].Except(E...).Emit("b", id)
+	} else {
+		g.ss[from-1].To(T...).Except(E...).Emit("b", id)
+	}
+	if err := g.barrier(); err != nil {
+		return row, err
+	}
+	g.mu.Lock()
+	for i := range g.recv {
+		row.Counts = append(row.Counts, g.recv[i][id])
+	}
+	g.mu.Unlock()
+	return row, nil
+}
+
+// cases: "m,te,from,ownbits;..." (replay) or n seeded random cases followed by the scripted
+// own-room cases.
+func roomsLive(out *vk.Out, r *vk.Rand, n int, cases string) error {
+	g, err := rmNewLiveRig()
+	if err != nil {
+		return err
+	}
+	defer g.close()
+	type lc struct{ m, te, from, own int }
+	list := []lc{}
+	if cases != "" {
+		for _, c := range strings.Split(cases, ";") {
+			var x lc
+			if _, err := fmt.Sscanf(c, "%d,%d,%d,%d", &x.m, &x.te, &x.from, &x.own); err != nil {
+				return err
+			}
+			list = append(list, x)
+		}
+	} else {
+		for i := 0; i < n; i++ {
+			x := lc{m: r.Intn(512), te: r.Intn(64), own: 7}
+			if r.Intn(2) == 0 {
+				x.from = 1 + r.Intn(3)
+			}
+			if r.Intn(3) == 0 {
+				x.te &= 7 // no exclusions
+			}
+			list = append(list, x)
+		}
+		// the sender left the room named by its own id (and re-joined it afterwards)
+		list = append(list, lc{m: 0, te: 0, from: 1, own: 6}, lc{m: 0o111, te: 1, from: 2, own: 5},
+			lc{m: 0, te: 0, from: 1, own: 7}, lc{m: 0o111, te: 1, from: 2, own: 7})
+	}
+	for _, x := range list {
+		row, err := g.run(x.m, x.te, x.from, [3]bool{x.own&1 == 1, x.own&2 == 2, x.own&4 == 4})
+		if err != nil {
+			return err
+		}
+		out.Put(row)
+	}
+	return nil
+}
+
+// ---------------------------------------------------------------- mode conc
+// Membership changes concurrent with broadcasts on the real adapter.  A global logical clock
+// (atomic counter) stamps every adapter call [t0,t1] and every broadcast [b0,b1]; a call with
+// t1 < b0 returned before the broadcast started, one with t0 > b1 started after it returned.
+// Per broadcast and socket the row gives, for every room of T and E, for "registered" (key of
+// a.sids) and "known" (socket store): 1 = throughout, 0 = never, 2 = changed or may have changed
+// during the broadcast (indeterminate), plus the number of SendBuffers calls for the socket.
+type rmConcSock struct {
+	S     int   `json:"s"`
+	InT   []int `json:"inT"` // status per room of T (same order)
+	InE   []int `json:"inE"`
+	Reg   int   `json:"reg"`
+	Known int   `json:"known"`
+	Count int   `json:"count"`
+}
+type rmConcRow struct {
+	T     []int        `json:"T"`
+	E     []int        `json:"E"`
+	Socks []rmConcSock `json:"socks"`
+	Churn int          `json:"churn"` // adapter calls overlapping this broadcast
+}
+
+type rmConcOp struct {
+	t0, t1 int64
+	mask   uint32 // what the call may have changed: bit r-11 for rooms, bit 8 = registered
+	after  uint32 // state after the call (same bits)
+}
+
+func roomsConc(out *vk.Out, r *vk.Rand, n int) error {
+	const nStable, nChurn = 5, 3
+	rooms := []int{11, 12, 13, 14}
+	regBit := uint32(1 << 8)
+	bit := func(room int) uint32 { return 1 << uint(room-11) }
+	var clock atomic.Int64
+	g := rmNewRig()
+	var cur atomic.Pointer[[]int]
+	var sentMu sync.Mutex
+	g.store.SetSendBuffers(func(sid adapter.SocketID, buffers [][]byte) bool {
+		sentMu.Lock()
+		p := cur.Load()
+		*p = append(*p, rmXk(string(sid)))
+		sentMu.Unlock()
+		return true
+	})
+	// stable sockets: 1 in 11; 2 in 11,12; 3 in 14 only; 4 in 11 and 13; 5 in 11,12 but unknown to the store
+	stable := map[int][]int{1: {11}, 2: {11, 12}, 3: {14}, 4: {11, 13}, 5: {11, 12}}
+	for s, rs := range stable {
+		if s != 5 {
+			g.store.Set(adapter.NewTestSocket(rmXsid(s)))
+		}
+		g.ad.AddAll(rmXsid(s), rmXrooms(rs))
+	}
+	logs := make([][]rmConcOp, nChurn)
+	stop := make(chan struct{})
+	var wg sync.WaitGroup
+	for c := 0; c < nChurn; c++ {
+		s := nStable + 1 + c
+		g.store.Set(adapter.NewTestSocket(rmXsid(s)))
+		rr := r.Fork()
+		wg.Add(1)
+		go func(c, s int, rr *vk.Rand) {
+			defer wg.Done()
+			var state uint32
+			for {
+				select {
+				case <-stop:
+					return
+				default:
+				}
+				op := rmConcOp{}
+				room := rooms[rr.Intn(3)] // 11..13
+				k := rr.Intn(10)
+				op.t0 = clock.Add(1)
+				switch {
+				case k < 4:
+					g.ad.AddAll(rmXsid(s), []adapter.Room{rmXroom(room)})
+					state |= bit(room) | regBit
+					op.mask = bit(room) | regBit
+				case k < 8:
+					g.ad.Delete(rmXsid(s), rmXroom(room))
+					state &^= bit(room)
+					op.mask = bit(room)
+				case k < 9:
+					g.ad.DeleteAll(rmXsid(s))
+					state = 0
+					op.mask = 0x1ff
+				default:
+					g.ad.AddAll(rmXsid(s), nil)
+					state |= regBit
+					op.mask = regBit
+				}
+				op.t1 = clock.Add(1)
+				op.after = state
+				logs[c] = append(logs[c], op)
+				if rr.Intn(4) == 0 {
+					time.Sleep(time.Duration(rr.Intn(300)) * time.Microsecond)
+				}
+			}
+		}(c, s, rr)
+	}
+	type bc struct {
+		T, E   []int
+		b0, b1 int64
+		out    []int
+	}
+	combos := [][2][]int{{{11}, {}}, {{11, 12}, {}}, {{}, {}}, {{11, 12}, {13}}, {{}, {13}}, {{12, 13}, {11}}, {{11}, {13}}}
+	bcs := make([]bc, 0, n)
+	for i := 0; i < n; i++ {
+		cb := combos[r.Intn(len(combos))]
+		b := bc{T: cb[0], E: cb[1]}
+		outp := []int{}
+		cur.Store(&outp)
+		b.b0 = clock.Add(1)
+		g.operator(0).To(rmXrooms(b.T)...).Except(rmXrooms(b.E)...).Emit("e", i)
+		b.b1 = clock.Add(1)
+		sentMu.Lock()
+		b.out = append([]int{}, outp...)
+		sentMu.Unlock()
+		bcs = append(bcs, b)
+		if r.Intn(3) == 0 {
+			time.Sleep(time.Duration(r.Intn(200)) * time.Microsecond)
+		}
+	}
+	close(stop)
+	wg.Wait()
+	// classification
+	status := func(c int, b bc, m uint32) (int, int) {
+		var st uint32
+		unknown, overlap := false, 0
+		for _, op := range logs[c] {
+			if op.t1 < b.b0 {
+				st = op.after
+				continue
+			}
+			if op.t0 > b.b1 {
+				break
+			}
+			overlap++
+			if op.mask&m != 0 {
+				unknown = true
+			}
+		}
+		if unknown {
+			return 2, overlap
+		}
+		if st&m != 0 {
+			return 1, overlap
+		}
+		return 0, overlap
+	}
+	for _, b := range bcs {
+		row := rmConcRow{T: b.T, E: b.E}
+		count := map[int]int{}
+		for _, s := range b.out {
+			count[s]++
+		}
+		for s := 1; s <= nStable+nChurn; s++ {
+			so := rmConcSock{S: s, InT: []int{}, InE: []int{}, Count: count[s], Known: 1}
+			if s <= nStable {
+				has := func(room int) int {
+					for _, x := range stable[s] {
+						if x == room {
+							return 1
+						}
+					}
+					return 0
+				}
+				for _, t := range b.T {
+					so.InT = append(so.InT, has(t))
+				}
+				for _, e := range b.E {
+					so.InE = append(so.InE, has(e))
+				}
+				so.Reg = 1
+				if s == 5 {
+					so.Known = 0
+				}
+			} else {
+				c := s - nStable - 1
+				ov := 0
+				for _, t := range b.T {
+					st, o := status(c, b, bit(t))
+					so.InT = append(so.InT, st)
+					ov = o
+				}
+				for _, e := range b.E {
+					st, o := status(c, b, bit(e))
+					so.InE = append(so.InE, st)
+					ov = o
+				}
+				so.Reg, ov = status(c, b, regBit)
+				row.Churn += ov
+			}
+			row.Socks = append(row.Socks, so)
+		}
+		delete(count, 0)
+		for s := range count {
+			if s < 1 || s > nStable+nChurn {
+				row.Socks = append(row.Socks, rmConcSock{S: s, InT: []int{}, InE: []int{}, Count: count[s], Known: 0})
+			}
+		}
+		out.Put(row)
+	}
+	return nil
+}
